@@ -443,3 +443,7 @@ def run(ctx):
     # in every tick, for every such container, whatever the overcommit setting (C04#6)
     from . import c04
     c04.check_kills(Renumber(ctx, {5: 3, 6: 3, 7: 3}))
+    # ... and the killer itself must get through its pass: it orders the candidates by a key that is the score alone (whole entries would be compared on a
+    # tie, and containers do not compare) and takes them from that list in order (C11#1/#2)
+    from . import c11
+    c11._run(Renumber(ctx, {1: 3, 2: 3}, drop=(3, 4, 5, 6)))
